@@ -3,6 +3,7 @@ observations, worker processes (one per interpreter hash seed / run variant), me
 from __future__ import annotations
 
 import json
+import re
 import os
 import subprocess
 import sys
@@ -14,6 +15,21 @@ from hv import tracer
 from hv.common import REPO, ROOT, Ctx, MachineryError
 
 DROP_REPORT_KEYS = {"session_id", "instance_id"}
+
+
+_SET_IN_TEXT = re.compile(r"\{([^{}]*)\}")
+
+
+def canon_text(text: str) -> str:
+    """a set printed inside a text (e.g. "Membership(memberships=frozenset({'b', 'a'}))", "{'x', 'y'}") with its members in
+    sorted order: the statement allows the members of a set-valued field to be printed in any order"""
+    def _sorted(m):
+        inner = m.group(1)
+        if ":" in inner:          # a dict literal: leave alone
+            return m.group(0)
+        return "{" + ", ".join(sorted(x.strip() for x in inner.split(","))) + "}"
+
+    return _SET_IN_TEXT.sub(_sorted, text) if "{" in text else text
 
 
 def canon_value(v: Any) -> Any:
@@ -28,7 +44,9 @@ def canon_value(v: Any) -> Any:
         return [canon_value(x) for x in v]
     if isinstance(v, float):
         return repr(v)
-    if isinstance(v, (int, str, bool)) or v is None:
+    if isinstance(v, str):
+        return canon_text(v)
+    if isinstance(v, (int, bool)) or v is None:
         return v
     if isinstance(v, dict):
         return {str(k): canon_value(x) for k, x in sorted(v.items(), key=lambda kv: str(kv[0]))}
@@ -40,8 +58,9 @@ def canon_report(rep) -> str:
     for k, v in rep.report.items():
         if k in DROP_REPORT_KEYS:
             continue
-        if k == "fleet_id" and isinstance(v, str) and "," in v:
-            v = ",".join(sorted(v.split(",")))
+        # memberships are sets: hive prints them comma-joined in whatever order the set iterates
+        if isinstance(v, str) and "," in v and re.search(r"fleet|member", str(k), re.I):
+            v = ",".join(sorted(x.strip() for x in v.split(",")))
         d[str(k)] = canon_value(v)
     return json.dumps(d, sort_keys=True, separators=(",", ":"))
 
